@@ -316,6 +316,91 @@ Section Proofs.
         unfold sig_port_type. rewrite Em1. cbn [f_out]. apply S1.
   Qed.
 
+  (* ---- a reported type is the specification's, in BOTH directions ----
+     Which ports Hugr.port_type answers with a type at all is a choice of the implementation (today: every value
+     port of the DataflowOp classes, the value outputs of a Call, not the value inputs of a Call).  The
+     statements are therefore made for EVERY answer function [pt] whose reported types are payloads of the
+     port's kind ([kind_payload_reports]); the code's function is one instance, the variant that also answers
+     on the value inputs of a Call is another. *)
+  Definition kind_payload_reports (pt : op -> dir -> Z -> result (option ty)) : Prop :=
+    forall o d z t, pt o d z = Ret (Some t) -> port_kind vtype o d z = Ret (ValueKind t).
+
+  Theorem reported_type_is_specified pt : kind_payload_reports pt ->
+    forall o d z t, pt o d z = Ret (Some t) ->
+      match spec_port_kind ct o d z with
+      | Port (ValueKind t0) => t = t0          (* a value port: the type the specification assigns *)
+      | Port _ | NoPort => False               (* static / control-flow / order port, no port: never a type *)
+      | Unspecified => True
+      end.
+  Proof.
+    intros Hpt o d z t H. apply Hpt in H. pose proof (port_kind_spec o d z) as P.
+    destruct (spec_port_kind ct o d z) as [k| |].
+    - rewrite H in P. inversion P; subst k. reflexivity.
+    - rewrite H in P. discriminate P.
+    - exact I.
+  Qed.
+
+  Lemma op_port_type_not_order (o : op) d t : op_port_type o d (-1) <> Ret t.
+  Proof.
+    unfold op_port_type. destruct (is_dataflow_op o); [|discriminate].
+    destruct (outer_sig o); cbn; discriminate.
+  Qed.
+
+  Theorem hugr_port_type_kind_payload : kind_payload_reports (hugr_port_type vtype).
+  Proof.
+    intros o d z t H.
+    destruct d; [|apply value_out_type_is_kind_payload; exact H].
+    unfold hugr_port_type in H.
+    destruct (is_dataflow_op o) eqn:Edf.
+    - destruct (op_port_type o In z) as [x|e] eqn:Ept; cbn in H; [|discriminate]. inversion H; subst x.
+      destruct (z =? -1) eqn:Em1.
+      { assert (z = -1) by lia. subst z. exfalso. exact (op_port_type_not_order _ _ _ Ept). }
+      destruct o; cbn in Edf; try discriminate; cbn [port_kind]; rewrite ?Em1; try (rewrite Ept; reflexivity).
+      + (* LoadConst: no value input *)
+        exfalso. unfold op_port_type in Ept. cbn in Ept. destruct t0; cbn in Ept; [|discriminate].
+        unfold sig_port_type in Ept. rewrite Em1 in Ept. cbn in Ept. unfold py_index in Ept. cbn in Ept.
+        destruct (z <? 0); destruct ((_ <? 0) || (_ <=? _)) eqn:E2 in Ept; try discriminate; lia.
+      + (* LoadFunc: no value input *)
+        exfalso. unfold op_port_type in Ept. cbn in Ept.
+        unfold sig_port_type in Ept. rewrite Em1 in Ept. cbn in Ept. unfold py_index in Ept. cbn in Ept.
+        destruct (z <? 0); destruct ((_ <? 0) || (_ <=? _)) eqn:E2 in Ept; try discriminate; lia.
+    - destruct o; discriminate H.
+  Qed.
+
+  (* the variant that answers on the value inputs of a Call too (the payload of the port's kind in either
+     direction): equally admissible, and it differs from the code's function exactly there *)
+  Definition hugr_port_type_call_inputs (o : op) (d : dir) (z : Z) : result (option ty) :=
+    match o with
+    | OCall _ _ _ =>
+        bind (port_kind vtype o d z) (fun k => match k with ValueKind t => Ret (Some t) | _ => Ret None end)
+    | _ => hugr_port_type vtype o d z
+    end.
+  Theorem hugr_port_type_call_inputs_kind_payload : kind_payload_reports hugr_port_type_call_inputs.
+  Proof.
+    intros o d z t H. destruct o; try (apply hugr_port_type_kind_payload; exact H).
+    unfold hugr_port_type_call_inputs in H.
+    destruct (port_kind vtype (OCall sig inst targs) d z) as [k|e]; cbn in H; [|discriminate].
+    destruct k; inversion H; reflexivity.
+  Qed.
+
+  (* today's answers on value INPUT ports: the specified type, or (Call) no type -- never another type *)
+  Theorem in_port_type_none_or_specified (o : op) z t0 :
+    spec_port_kind ct o In z = Port (ValueKind t0) ->
+    hugr_port_type vtype o In z = Ret (Some t0) \/ hugr_port_type vtype o In z = Ret None.
+  Proof.
+    intros Hs. pose proof (port_kind_correct _ _ _ _ Hs) as Hk.
+    unfold hugr_port_type. destruct (is_dataflow_op o) eqn:Edf.
+    - left.
+      assert (Em1 : (z =? -1) = false).
+      { destruct (z =? -1) eqn:E; [|reflexivity]. assert (z = -1) by lia. subst z.
+        unfold spec_port_kind in Hs. cbn in Hs. destruct (has_order_port o In); discriminate Hs. }
+      destruct o; cbn in Edf; try discriminate; cbn [port_kind] in Hk; rewrite ?Em1 in Hk;
+        try (destruct (op_port_type _ In z); cbn in Hk |- *; inversion Hk; reflexivity).
+      + (* LoadConst *) destruct (z =? 0); [destruct t; cbn in Hk|]; discriminate Hk.
+      + (* LoadFunc *) destruct (z =? 0); discriminate Hk.
+    - right. destruct o; reflexivity.
+  Qed.
+
   (* ---- per operation kind ---- *)
   Theorem dfg_outer_is_inner i o d : outer_sig (V:=V) (ODFG i o d) = inner_sig (V:=V) (ODFG i o d).
   Proof. reflexivity. Qed.
